@@ -5,6 +5,8 @@
 #   tools/mutsandbox.sh prepare            create/refresh /tmp/mutrepo (worktree of /repo HEAD + uncommitted
 #                                          hook edits) and /tmp/verif-mut (copy of /verif, harness pointing at it)
 #   tools/mutsandbox.sh run <patch.diff> <Cxx> [tier]   apply patch, run the check, un-apply
+#   tools/mutsandbox.sh locked-run <patch.diff> <Cxx> [tier]   prepare + run under an exclusive lock:
+#                                          the form to use when several people share the sandbox
 #   tools/mutsandbox.sh clean              remove both
 set -u
 MR=/tmp/mutrepo
@@ -34,10 +36,14 @@ run)
   echo "exit=$rc"
   exit $rc
   ;;
+locked-run)
+  shift
+  exec flock /tmp/mutsandbox.lock bash -c '"$0" prepare >/dev/null && "$0" run "$@"' "$0" "$@"
+  ;;
 clean)
   rm -rf "$MV"
   git -C /repo worktree remove --force "$MR" 2>/dev/null
   rm -rf "$MR"
   ;;
-*) echo "usage: $0 prepare|run <patch> <Cxx> [tier]|clean"; exit 2;;
+*) echo "usage: $0 prepare|run <patch> <Cxx> [tier]|locked-run <patch> <Cxx> [tier]|clean"; exit 2;;
 esac
